@@ -10,6 +10,8 @@ Finally revert the worktree."""
 import json, os, re, shutil, subprocess, sys, time
 
 name, prop, wt, mdir = sys.argv[1:5]
+props = prop.split("+")  # property the change breaks first, then further checks to run against it
+prop = props[0]
 run_tests = "--no-tests" not in sys.argv
 mdir = os.path.join(wt, mdir)
 env = dict(os.environ, PYTHONPATH=wt, PYTHONHASHSEED="0", VERIF_OUT=os.path.join("/tmp/seeded_out", name))
@@ -35,10 +37,14 @@ try:
         out["tests_with_change"] = o.strip().splitlines()[-1]
         failed = sorted(set(re.findall(r"^(?:FAILED|ERROR) (\S+)", o, flags=re.M)))
         out["tests_not_passing"] = failed
-    t = time.time()
-    rc, o = sh(f"./check {prop}", cwd="/verif", timeout=1800)
-    out["check_quick"] = {"exit": rc, "wall_s": round(time.time() - t, 1), "violation_lines": [l for l in o.splitlines() if l.startswith("VIOLATION")],
-                          "tail": o[-800:]}
+    out["checks"] = {}
+    for pp in props:
+        t = time.time()
+        rc, o = sh(f"./check {pp}", cwd="/verif", timeout=1800)
+        out["checks"][pp] = {"exit": rc, "wall_s": round(time.time() - t, 1), "violation_lines": [l for l in o.splitlines() if l.startswith("VIOLATION")],
+                             "tail": o[-600:]}
+    best = next((pp for pp in props if out["checks"][pp]["exit"] == 1), props[0])
+    out["check_quick"] = dict(out["checks"][best], check=best)
 finally:
     sh("git checkout -- phyclone && git clean -fdq phyclone")
 # restore the clean evidence file of the property
